@@ -48,20 +48,20 @@ package raft
 //@   ensures result0 == nil ==> old(fs[oldpath]) && forall(p, fs[p] == ite(p == newpath, true, ite(p == oldpath, false, old(fs[p]))))
 //@   ensures result0 != nil ==> fs == old(fs)
 
-//@ func syncDir
+//@ func syncDir params(dir)
 //@   trusted
 
-//@ func valueFile
+//@ func valueFile params(dir, ext, v1, v2)
 //@   trusted
 //@   ensures result0 == vfile(dir, ext, v1, v2)
 
-//@ func assert
+//@ func assert params(b)
 //@   requires b
 
-//@ func opError
+//@ func opError params(err, format, v)
 //@   inline
 
-//@ func (*value).set
+//@ func (*value).set params(v, v1, v2)
 //@   requires ValueInv(v)
 //@   modifies v.v1, v.v2, fs
 //@   ensures [C05.set-ok] result0 == nil ==> v.v1 == v1 && v.v2 == v2 && ValueInv(v)
@@ -79,7 +79,7 @@ package raft
 //@ func var grantingVote
 //@   trusted
 
-//@ func (*storage).setVotedFor
+//@ func (*storage).setVotedFor params(s, term, candidate)
 //@   requires TermInv(s)
 //@   requires term >= s.term
 //@   modifies s.term, s.votedFor, s.termVal.v1, s.termVal.v2, fs
@@ -92,7 +92,7 @@ package raft
 //@   panic_ensures [C05.fail-atomic] DurableIs(s, old(s.term), old(s.votedFor)) || DurableIs(s, term, candidate)
 //@   crash_inv [C10.vote-crash-atomic] (DurableIs(s, old(s.term), old(s.votedFor)) || DurableIs(s, term, candidate)) && s.termVal == old(s.termVal)
 
-//@ func (*storage).setTerm
+//@ func (*storage).setTerm params(s, term)
 //@   requires TermInv(s)
 //@   requires term >= s.term
 //@   modifies s.term, s.votedFor, s.termVal.v1, s.termVal.v2, fs
@@ -110,23 +110,23 @@ package raft
 
 //@ pure RaftWF(r *Raft) bool = r.storage != nil && TermInv(r.storage) && r.logger != nil && r.alerts != nil
 
-//@ func (*Raft).setState
+//@ func (*Raft).setState params(r, s)
 //@   requires r.logger != nil
 //@   modifies r.state
 //@   ensures r.state == s
 
-//@ func (*Raft).setLeader
+//@ func (*Raft).setLeader params(r, id)
 //@   requires r.logger != nil && r.storage != nil
 //@   modifies r.leader
 //@   ensures r.leader == id
 
-//@ func (*req).getTerm
+//@ func (*req).getTerm params(req)
 //@   inline
 
 // ---------------------------------------------------------------------------
 // RequestVote handler (C01, C02, C05, C17, C19)
 
-//@ func (*Raft).onVoteRequest
+//@ func (*Raft).onVoteRequest params(r, req)
 //@   requires RaftWF(r)
 //@   modifies r.state, r.storage.term, r.storage.votedFor, r.storage.termVal.v1, r.storage.termVal.v2, fs
 //@   maypanic OpError
@@ -149,39 +149,39 @@ package raft
 //@ pure NumVoters(c Config) int = cntv(col(c.Nodes, Voter), keys(c.Nodes))
 //@ pure IsVoter(c Config, id uint64) bool = has(c.Nodes, id) && c.Nodes[id].Voter
 
-//@ func (Config).isVoter
+//@ func (Config).isVoter params(c, id)
 //@   ensures [C11.isvoter] result0 == IsVoter(c, id)
 
-//@ func (Config).numVoters
+//@ func (Config).numVoters params(c)
 //@   ensures [C01.numvoters] result0 == NumVoters(c)
 //@   loop 1 invariant voters == cntv(col(c.Nodes, Voter), visitedset()) && subset(visitedset(), keys(c.Nodes))
 
-//@ func (Config).quorum
+//@ func (Config).quorum params(c)
 //@   ensures [C01.quorum] result0 == NumVoters(c)/2 + 1
 
 // ---------------------------------------------------------------------------
 // timers, randomness, connection pools (trusted: T-go / time)
 
-//@ func (randTime).duration
+//@ func (randTime).duration params(rt, min)
 //@   trusted
-//@ func (randTime).deadline
+//@ func (randTime).deadline params(rt, min)
 //@   trusted
-//@ func (*safeTimer).reset
+//@ func (*safeTimer).reset params(t, d)
 //@   trusted
 //@   modifies all(t)
-//@ func (*safeTimer).stop
+//@ func (*safeTimer).stop params(t)
 //@   trusted
 //@   modifies all(t)
 
 //@ pure PoolsInv(r *Raft) bool = r.connPools != nil && forall(k, has(r.connPools, k) ==> r.connPools[k] != nil && r.connPools[k].nid == k && r.connPools[k].cid == r.cid && r.connPools[k].src == r.nid)
 
-//@ func (*Raft).getConnPool
+//@ func (*Raft).getConnPool params(r, nid)
 //@   requires r.storage != nil && PoolsInv(r)
 //@   modifies contents(r.connPools)
 //@   ensures [C20.pool-identity] result0 != nil && result0.cid == r.cid && result0.nid == nid && result0.src == r.nid
 //@   ensures [C20.pools-inv] PoolsInv(r)
 
-//@ func (rpcType).createResp
+//@ func (rpcType).createResp params(t, r, result, err)
 //@   requires r.storage != nil && rpcIdentity <= t && t <= rpcTimeoutNow
 //@   ensures result0 != nil && ptrnonnil(result0) && isfresh(ref(result0))
 //@   ensures [C20.resp-shape] t == rpcIdentity ==> istype(result0, *identityResp) && as(result0, *identityResp).result == result && as(result0, *identityResp).term == r.term
@@ -191,7 +191,7 @@ package raft
 
 //@ pure CandWF(c *candidate) bool = c.Raft != nil && RaftWF(c.Raft) && PoolsInv(c.Raft) && c.timer != nil
 
-//@ func (*candidate).startElection
+//@ func (*candidate).startElection params(c)
 //@   requires CandWF(c)
 //@   requires [C11.candidate-is-voter] IsVoter(c.configs.Latest, c.nid)
 //@   requires c.term < 18446744073709551615
@@ -204,7 +204,7 @@ package raft
 //@   panic_ensures [C05.crash-atomic] c.term == old(c.term) && c.votedFor == old(c.votedFor)
 //@   loop 1 invariant CandWF(c) && c.term == old(c.term) + 1 && c.votedFor == c.nid && DurableIs(c.storage, c.term, c.nid) && c.votesNeeded == NumVoters(c.configs.Latest)/2 + 1
 
-//@ func (*candidate).onVoteResult
+//@ func (*candidate).onVoteResult params(c, resp)
 //@   requires CandWF(c) && ptrnonnil(resp.response)
 //@   requires c.votesNeeded >= 1
 //@   modifies c.votesNeeded, c.state, c.leader, c.storage.term, c.storage.votedFor, c.storage.termVal.v1, c.storage.termVal.v2, fs
@@ -217,12 +217,12 @@ package raft
 
 // the transfer privilege (set by onTimeoutNowRequest) is good for one candidacy only: leaving the
 // candidate state clears it, so a later ordinary election cannot depose a live leader (C16, C17)
-//@ func (*candidate).release
+//@ func (*candidate).release params(c)
 //@   modifies c.respCh, c.transfer
 //@   ensures [C17+C16.transfer-single-use] !c.transfer
 //@   ensures [C01.stale-votes-dropped] c.respCh == nil
 
-//@ func (*candidate).init
+//@ func (*candidate).init params(c)
 //@   requires CandWF(c)
 //@   requires [C11.candidate-is-voter] IsVoter(c.configs.Latest, c.nid)
 //@   requires c.term < 18446744073709551615
@@ -233,7 +233,7 @@ package raft
 //@   ensures [C19.wf] CandWF(c)
 //@   panic_ensures [C05.crash-atomic] c.term == old(c.term) && c.votedFor == old(c.votedFor)
 
-//@ func (*candidate).onTimeout
+//@ func (*candidate).onTimeout params(c)
 //@   requires CandWF(c)
 //@   requires [C11.candidate-is-voter] IsVoter(c.configs.Latest, c.nid)
 //@   requires c.term < 18446744073709551615
@@ -247,50 +247,50 @@ package raft
 // ---------------------------------------------------------------------------
 // follower (C11)
 
-//@ func (Configs).IsBootstrapped
+//@ func (Configs).IsBootstrapped params(c)
 //@   inline
-//@ func (Config).isBootstrapped
+//@ func (Config).isBootstrapped params(c)
 //@   inline
 
-//@ func (*follower).canStartElection
+//@ func (*follower).canStartElection params(f)
 //@   requires f.Raft != nil && f.storage != nil
 //@   ensures [C11.no-campaign] result0 == (f.configs.Latest.Index > 0 && IsVoter(f.configs.Latest, f.nid))
 
-//@ func (*follower).onTimeout
+//@ func (*follower).onTimeout params(f)
 //@   requires f.Raft != nil && RaftWF(f.Raft)
 //@   modifies f.leader, f.state, f.electionAborted
 //@   ensures [C11.no-campaign] f.state != old(f.state) ==> f.state == Candidate && IsVoter(f.configs.Latest, f.nid) && f.configs.Latest.Index > 0
 //@   ensures f.leader == 0
 
-//@ func (*follower).init
+//@ func (*follower).init params(f)
 //@   requires f.Raft != nil && f.timer != nil
 //@   modifies all(f.timer), f.electionAborted
 //@   ensures !f.electionAborted
 
-//@ func (*follower).release
+//@ func (*follower).release params(f)
 //@   modifies
 //@   ensures true
 
 // the election timer is re-armed only on a node that may campaign (C11)
-//@ func (*follower).resetTimer
+//@ func (*follower).resetTimer params(f)
 //@   requires f.Raft != nil && f.storage != nil && f.timer != nil
 //@   modifies all(f.timer), f.electionAborted
 //@   ensures [C11.no-campaign] !(f.configs.Latest.Index > 0 && IsVoter(f.configs.Latest, f.nid)) ==> f.electionAborted == old(f.electionAborted)
 //@   ensures f.configs.Latest.Index > 0 && IsVoter(f.configs.Latest, f.nid) ==> !f.electionAborted
 
-//@ func (*Raft).onTimeoutNowRequest
+//@ func (*Raft).onTimeoutNowRequest params(r)
 //@   requires RaftWF(r) && r.cnd != nil
 //@   modifies r.state, r.leader, r.cnd.transfer
 //@   ensures [C11.timeout-now-voter-only] !IsVoter(r.configs.Latest, r.nid) ==> result0 == nonVoter && r.state == old(r.state) && r.leader == old(r.leader) && r.cnd.transfer == old(r.cnd.transfer)
 //@   ensures [C11.timeout-now] IsVoter(r.configs.Latest, r.nid) ==> result0 == success && r.state == Candidate && r.leader == 0 && r.cnd.transfer
 
-//@ func trimPrefix
+//@ func trimPrefix params(err)
 //@   trusted
-//@ func (*resp).getTerm
+//@ func (*resp).getTerm params(resp)
 //@   inline
-//@ func (*resp).getResult
+//@ func (*resp).getResult params(resp)
 //@   inline
-//@ func (*resp).getErr
+//@ func (*resp).getErr params(resp)
 //@   inline
 
 // ---------------------------------------------------------------------------
@@ -298,43 +298,43 @@ package raft
 
 //@ ghost var closeRequested bool
 
-//@ func (*resolver).update
+//@ func (*resolver).update params(r, config)
 //@   trusted
 //@   modifies contents(r.addrs)
 
-//@ func (*Raft).doClose
+//@ func (*Raft).doClose params(r, reason)
 //@   trusted
 //@   modifies closeRequested
 //@   ensures closeRequested
 
 //@ pure CfgCommitted(s *storage) bool = s.configs.Latest.Index == s.configs.Committed.Index
 
-//@ func (Configs).IsCommitted
+//@ func (Configs).IsCommitted params(c)
 //@   inline
 
-//@ func (*Raft).setLatest
+//@ func (*Raft).setLatest params(r, config)
 //@   requires r.storage != nil && r.resolver != nil
 //@   modifies r.storage.configs.Latest, contents(r.resolver.addrs)
 //@   ensures [C08+C19.set-latest] r.configs.Latest == config
 
-//@ func (*Raft).changeConfig
+//@ func (*Raft).changeConfig params(r, config)
 //@   requires RaftWF(r) && r.resolver != nil
 //@   modifies r.leader, r.storage.configs.Committed, r.storage.configs.Latest, contents(r.resolver.addrs)
 //@   ensures [C08+C19.adopt] r.configs.Latest == config && r.configs.Committed == old(r.configs.Latest)
 //@   ensures [C08.adopt-leader] r.leader == old(r.leader) || (r.leader == 0 && !IsVoter(config, old(r.leader)))
 
-//@ func (*Raft).commitConfig
+//@ func (*Raft).commitConfig params(r)
 //@   requires RaftWF(r)
 //@   modifies r.leader, r.storage.configs.Committed
 //@   ensures [C08+C19.commit] r.configs.Committed == r.configs.Latest && r.configs.Latest == old(r.configs.Latest)
 //@   ensures r.leader == old(r.leader) || r.leader == 0
 
-//@ func (*Raft).revertConfig
+//@ func (*Raft).revertConfig params(r)
 //@   requires RaftWF(r) && r.resolver != nil
 //@   modifies r.storage.configs.Latest, contents(r.resolver.addrs)
 //@   ensures [C08+C19.revert] r.configs.Latest == old(r.configs.Committed) && r.configs.Committed == old(r.configs.Committed)
 
-//@ func (*Raft).setCommitIndex
+//@ func (*Raft).setCommitIndex params(r, index)
 //@   requires RaftWF(r)
 //@   modifies r.commitIndex, r.storage.configs.Committed, r.state, r.leader, closeRequested
 //@   ensures [C19.commit-set] r.commitIndex == index
@@ -345,7 +345,7 @@ package raft
 //@   ensures [C11.state-otherwise-kept] !(result0 && old(r.state) == Leader && !IsVoter(r.configs.Latest, r.nid)) ==> r.state == old(r.state)
 //@   ensures [C11.shutdown-after-commit] closeRequested && !old(closeRequested) ==> result0 && r.shutdownOnRemove && !has(r.configs.Latest.Nodes, r.nid)
 
-//@ func (*Raft).canCommit
+//@ func (*Raft).canCommit params(r, req, index, term)
 //@   ensures [C02.follower-commit-rule] result0 == (req.ldrCommitIndex >= index && term == req.term && index > r.commitIndex)
 
 // ---------------------------------------------------------------------------
@@ -373,16 +373,16 @@ package raft
 //@ pure CfgInLog(s *storage) bool = CfgEntry(s, s.configs.Latest.Index, s.configs.Latest.Term) && CfgEntry(s, s.configs.Committed.Index, s.configs.Committed.Term) && s.configs.Committed.Index <= s.configs.Latest.Index && forall(i, i > s.snaps.index && i <= s.lastLogIndex && i > s.configs.Committed.Index && i != s.configs.Latest.Index ==> s.gtyp[i] != entryConfig)
 //@ pure NodeInv(r *Raft) bool = RaftWF(r) && LogWF(r.storage) && CfgWF(r.storage) && r.commitIndex <= r.lastLogIndex && r.resolver != nil && r.fsm != nil
 
-//@ view (*log.Log).PrevIndex
+//@ view (*log.Log).PrevIndex params(l)
 //@   ensures result0 == l.gprev
-//@ view (*log.Log).LastIndex
+//@ view (*log.Log).LastIndex params(l)
 //@   ensures result0 == l.glast
-//@ view (*log.Log).ViewAt
+//@ view (*log.Log).ViewAt params(l, prevIndex, lastIndex)
 //@   requires [C03.view-bounds] lastIndex <= l.glast
 //@   ensures prevIndex <= lastIndex && prevIndex >= l.gprev ==> result0 != nil && result0.gprev == prevIndex && result0.glast == lastIndex
 //@   ensures prevIndex > lastIndex || prevIndex < l.gprev ==> result0 == nil
 
-//@ func (*storage).getEntry
+//@ func (*storage).getEntry params(s, index, e)
 //@   trusted
 //@   requires s.log != nil
 //@   modifies all(e)
@@ -390,7 +390,7 @@ package raft
 //@   ensures result0 == nil ==> e.index == index && e.term == s.gterm[index] && e.typ == s.gtyp[index]
 //@   ensures s.log.gprev < index && index <= s.lastLogIndex ==> result0 == nil
 
-//@ func (*storage).mustGetEntry
+//@ func (*storage).mustGetEntry params(s, index, e)
 //@   requires s.log != nil && s.log.gprev < index && index <= s.lastLogIndex
 //@   modifies all(e)
 //@   maypanic OpError
@@ -399,17 +399,17 @@ package raft
 // appendEntry / removeGTE / commitLog are proved against abstract views of the log API (T-abs); the ghost log
 // of the node (storage.gterm / gtyp: term and type per index; storage.flushed) is updated by ghost assignments
 // that use the ARGUMENTS the log calls were actually made with.
-//@ view (*log.Log).Append at (*storage).appendEntry
+//@ view (*log.Log).Append at (*storage).appendEntry params(l, b)
 //@   modifies l.glast
 //@   ensures result0 == nil ==> l.glast == old(l.glast) + 1
 //@   ensures result0 != nil ==> l.glast == old(l.glast)
 // T-std: writing to a bytes.Buffer cannot fail
-//@ view (*entry).encode at (*storage).appendEntry
+//@ view (*entry).encode at (*storage).appendEntry params(e, w)
 //@   modifies wdata, wlen
 //@   ensures result0 == nil
 //@ func (*bytes.Buffer).Bytes
 //@   trusted
-//@ func (*storage).appendEntry
+//@ func (*storage).appendEntry params(s, e)
 //@   requires [C04.append-contiguous] e.index == s.lastLogIndex + 1
 //@   requires s.log != nil && s.log.glast == s.lastLogIndex
 //@   modifies s.lastLogIndex, s.lastLogTerm, s.gterm, s.gtyp, s.log.glast, wdata, wlen
@@ -420,27 +420,27 @@ package raft
 //@   ghostcode after call Append 1: s.gterm[e.index] := e.term
 //@   ghostcode after call Append 1: s.gtyp[e.index] := e.typ
 
-//@ view (*log.Log).RemoveGTE at (*storage).removeGTE
+//@ view (*log.Log).RemoveGTE at (*storage).removeGTE params(l, i)
 //@   requires [C13.remove-range] l.gprev < i
 //@   modifies l.glast
 //@   ensures result0 == nil ==> l.glast == ite(i > old(l.glast), old(l.glast), i - 1)
-//@ func (*storage).removeGTE
+//@ func (*storage).removeGTE params(s, index, prevTerm)
 //@   requires [C02.truncate-above-snapshot] s.log != nil && s.log.gprev < index && index <= s.lastLogIndex && s.log.glast == s.lastLogIndex
 //@   modifies s.lastLogIndex, s.lastLogTerm, s.flushed, s.log.glast
 //@   maypanic OpError
 //@   ensures s.lastLogIndex == index - 1 && s.lastLogTerm == prevTerm && s.log.glast == index - 1 && s.flushed == index - 1
 //@   ghostcode after call RemoveGTE 1: s.flushed := arg1 - 1
 
-//@ view (*log.Log).CommitN at (*storage).commitLog
+//@ view (*log.Log).CommitN at (*storage).commitLog params(l, n)
 //@   ensures true
-//@ func (*storage).commitLog
+//@ func (*storage).commitLog params(s, n)
 //@   requires s.log != nil && s.flushed <= s.lastLogIndex
 //@   modifies s.flushed
 //@   maypanic OpError
 //@   ensures s.flushed >= old(s.flushed) && s.flushed <= s.lastLogIndex && (n <= s.lastLogIndex ==> s.flushed >= n) && (n >= s.lastLogIndex ==> s.flushed == s.lastLogIndex)
 //@   ghostcode after call CommitN 1: s.flushed := ite(arg1 >= s.lastLogIndex, s.lastLogIndex, ite(arg1 > s.flushed, arg1, s.flushed))
 
-//@ func (*Raft).applyCommitted
+//@ func (*Raft).applyCommitted params(r, ne)
 //@   nilable ne
 //@   requires r.storage != nil && r.fsm != nil && r.log != nil && r.log.glast == r.lastLogIndex
 //@   requires [C03.apply-view] r.commitIndex <= r.lastLogIndex
@@ -448,12 +448,12 @@ package raft
 // ---------------------------------------------------------------------------
 // AppendEntries handler (C02, C04, C06, C08, C19)
 
-//@ func isEntryBuffered
+//@ func isEntryBuffered params(r)
 //@   trusted
 
 // abstract view of entry.decode for the entry stream of an AppendEntries request (PA1 ghost);
 // the byte-level contract of the function itself is in verif_contracts_codec.go
-//@ view (*entry).decode at (*Raft).onAppendEntriesRequest, (*stateMachine).onApply, openStorage, (*replication).getEntryTerm
+//@ view (*entry).decode at (*Raft).onAppendEntriesRequest, (*stateMachine).onApply, openStorage, (*replication).getEntryTerm params(e, r)
 //@   modifies all(e), spos
 //@   ensures result0 == nil ==> spos[ref(r)] == old(spos[ref(r)]) + 1 && e.index == sIdx(ref(r), old(spos[ref(r)])) && e.term == sTerm(ref(r), old(spos[ref(r)])) && e.typ == sTyp(ref(r), old(spos[ref(r)]))
 //@   ensures forall(q, q != ref(r) ==> spos[q] == old(spos[q]))
@@ -463,7 +463,7 @@ package raft
 //@ func (*Raft).onAppendEntriesRequest$1
 //@   loop 1 invariant true
 
-//@ func (*Raft).onAppendEntriesRequest
+//@ func (*Raft).onAppendEntriesRequest params(r, req, c)
 //@   requires NodeInv(r) && c.bufr != nil && c.rwc != nil
 //@   requires r.flushed == r.lastLogIndex
 //@   requires [PA1.consecutive] forall(j, spos[ref(c.bufr)] <= j && j < spos[ref(c.bufr)] + req.numEntries ==> sIdx(ref(c.bufr), j) == req.prevLogIndex + 1 + (j - spos[ref(c.bufr)]))
@@ -519,12 +519,12 @@ package raft
 // Callers see the lock through the ghost map `locked` (trusted abstract views, T-abs); lockDir / unlockDir
 // themselves are proved against the file-system ghost: the lock is the file <abs dir>/lock, taken by the
 // atomic os.Link of a private temporary file (T-fs).
-//@ view lockDir at SetIdentity
+//@ view lockDir at SetIdentity params(dir)
 //@   modifies locked
 //@   ensures result0 == nil ==> !old(locked[dir]) && locked[dir]
 //@   ensures result0 != nil ==> locked[dir] == old(locked[dir])
 //@   ensures forall(d, d != dir ==> locked[d] == old(locked[d]))
-//@ view unlockDir at SetIdentity, SetIdentity$1
+//@ view unlockDir at SetIdentity, SetIdentity$1 params(dir)
 //@   modifies locked
 //@   ensures !locked[dir] && forall(d, d != dir ==> locked[d] == old(locked[d]))
 
@@ -556,14 +556,14 @@ package raft
 //@ func os.SameFile
 //@   trusted
 
-//@ func lockDir
+//@ func lockDir params(dir)
 //@   modifies fs, fdone, fsize, wdata, wlen
 //@   ensures [C20.lock-acquired] result0 == nil ==> !old(fs[LockPath(dir)]) && fs[LockPath(dir)]
 //@   ensures [C20.lock-not-disturbed] result0 != nil && old(fs[LockPath(dir)]) ==> fs[LockPath(dir)]
 //@   ensures [C20.lock-only] forall(p, pkind(p) != 4 && pkind(p) != 5 ==> fs[p] == old(fs[p]))
 //@   ensures forall(p, pkind(p) == 4 && p != LockPath(dir) ==> fs[p] == old(fs[p]))
 
-//@ func unlockDir
+//@ func unlockDir params(dir)
 //@   modifies fs
 //@   ensures [C20.lock-released] result0 == nil ==> !fs[pjoin(dir, "lock")]
 //@   ensures forall(p, p != pjoin(dir, "lock") ==> fs[p] == old(fs[p]))
@@ -571,7 +571,7 @@ package raft
 // openValue: callers (SetIdentity, openStorage) use a trusted abstract view (T-abs); the function itself is proved
 // against a model of the name pipeline Glob -> Base -> TrimSuffix -> IndexByte -> ParseInt (T-std):
 // a value file written by value.set for ANY pair of uint64 values must reopen to that pair (C10, C05).
-//@ view openValue at SetIdentity, openStorage
+//@ view openValue at SetIdentity, openStorage params(dir, ext)
 //@   modifies fs
 //@   ensures result1 == nil ==> result0 != nil && isfresh(result0) && result0.dir == dir && result0.ext == ext && ValueInv(result0)
 //@   ensures forall(a, b, old(fs[vfile(dir, ext, a, b)]) ==> fs == old(fs))
@@ -595,14 +595,14 @@ package raft
 //@   ensures gisnum(s) ==> (result1 == nil) == (gparse(s) < 9223372036854775808)
 //@   ensures result1 == nil ==> result0 == gparse(s)
 
-//@ func openValue
+//@ func openValue params(dir, ext)
 //@   props C05 C10
 //@   modifies fs, fdone, fsize
 //@   ensures result1 != nil ==> result0 == nil
 //@   ensures [C10+C05.value-reopens] forall(a, b, old(fs[vfile(dir, ext, a, b)]) && old(forall(p, fs[p] && gmatch(VPat(dir, ext), p) ==> p == vfile(dir, ext, a, b))) ==> result1 == nil && result0 != nil && result0.v1 == a && result0.v2 == b && result0.dir == dir && result0.ext == ext)
 //@   ensures [C10.value-reopen-keeps-files] forall(a, b, old(fs[vfile(dir, ext, a, b)]) ==> fs == old(fs))
 
-//@ func SetIdentity
+//@ func SetIdentity params(storageDir, cid, nid)
 //@   modifies fs, locked
 //@   ensures [C20.lock-not-stolen] old(locked[storageDir]) ==> locked[storageDir] && result0 != nil
 //@   ensures [C20.lock-released] !old(locked[storageDir]) ==> !locked[storageDir]
@@ -619,31 +619,31 @@ package raft
 // ---------------------------------------------------------------------------
 // request dispatch (C20: identity handshake arm)
 
-//@ func (*identityReq).rpcType
+//@ func (*identityReq).rpcType params(req)
 //@   inline
-//@ func (*voteReq).rpcType
+//@ func (*voteReq).rpcType params(req)
 //@   inline
-//@ func (*appendReq).rpcType
+//@ func (*appendReq).rpcType params(req)
 //@   inline
-//@ func (*installSnapReq).rpcType
+//@ func (*installSnapReq).rpcType params(req)
 //@   inline
-//@ func (*timeoutNowReq).rpcType
+//@ func (*timeoutNowReq).rpcType params(req)
 //@   inline
-//@ func (rpcType).fromLeader
+//@ func (rpcType).fromLeader params(t)
 //@   inline
 
 // STUBS until the codec contracts (C18) are in place: decoding a request only writes the request object
-//@ view (*installSnapReq).decode at (*Raft).replyRPC
+//@ view (*installSnapReq).decode at (*Raft).replyRPC params(req, r)
 //@   modifies all(req)
 
 // onRequest dispatches to the four handlers (each verified on its own) and converts panics
-//@ func (*Raft).onRequest
+//@ func (*Raft).onRequest params(r, req, c)
 //@   trusted
 //@   requires RaftWF(r)
 //@   modifies all(r), all(r.storage), all(r.storage.termVal), all(r.cnd), all(r.storage.log), all(r.storage.snaps), fs, spos, closeRequested, appendReq.numEntries, installSnapReq.size, contents(r.resolver.addrs)
 //@   ensures RaftWF(r)
 
-//@ func (*Raft).replyRPC
+//@ func (*Raft).replyRPC params(r, rpc)
 //@   requires RaftWF(r) && rpc.conn != nil && ptrnonnil(rpc.req) && rpc.conn.rwc != nil
 //@   modifies *
 //@   maypanic *
@@ -657,16 +657,16 @@ package raft
 //@ ghost field conn.gcid uint64
 //@ ghost field conn.gnid uint64
 
-//@ func (*resolver).lookupID
+//@ func (*resolver).lookupID params(r, id, timeout)
 //@   trusted
 
-//@ func dial
+//@ func dial params(dialFn, address, timeout)
 //@   trusted
 //@   ensures result1 == nil ==> result0 != nil && isfresh(result0) && result0.rwc != nil
 //@   ensures result1 != nil ==> result0 == nil
 
 // network exchange (T-go): after a successful identity handshake the peer is (cid, nid)
-//@ func (*conn).doRPC
+//@ func (*conn).doRPC params(c, req, resp, deadline)
 //@   trusted
 //@   modifies c.gcid, c.gnid, allof(resp)
 //@   ensures result0 == nil && istype(req, *identityReq) && istype(resp, *identityResp) && as(resp, *identityResp).result == success ==> c.gcid == as(req, *identityReq).cid && c.gnid == as(req, *identityReq).nid
@@ -674,14 +674,14 @@ package raft
 
 //@ pure PoolInv(pool *connPool) bool = forallr(j, 0, len(pool.conns), pool.conns[j] != nil ==> pool.conns[j].gcid == pool.cid && pool.conns[j].gnid == pool.nid && pool.conns[j].rwc != nil)
 
-//@ func (*connPool).getConn
+//@ func (*connPool).getConn params(pool, deadline)
 //@   requires PoolInv(pool) && pool.resolver != nil && !tzero(deadline.wall, deadline.ext)
 //@   modifies pool.conns, contents(pool.conns)
 //@   ensures [C20.conn-handshake] result1 == nil ==> result0 != nil && result0.gcid == pool.cid && result0.gnid == pool.nid
 //@   ensures [C20.conn-or-error] result1 != nil ==> result0 == nil
 //@   ensures [C20.pool-inv] PoolInv(pool)
 
-//@ func (*connPool).returnConn
+//@ func (*connPool).returnConn params(pool, c)
 //@   requires PoolInv(pool) && c.gcid == pool.cid && c.gnid == pool.nid && c.rwc != nil
 //@   modifies pool.conns, elems(*conn)
 //@   ensures [C20.pool-inv] PoolInv(pool)
